@@ -2,10 +2,10 @@
    ExtrOcamlBasic only (bool, option, unit, list, prod, sumbool -> OCaml's); no Extract Constant;
    nat, positive, N, Z, Q stay extracted inductives. *)
 From Coq Require Import List NArith ZArith QArith.
-From Mathy Require Import Tok Params TokSet Lexer Num Expr Parser ParserObj Printer Eval Util Terms Problems Rules Bt Heap Layout.
+From Mathy Require Import Tok Params TokSet Lexer Num Expr Parser ParserObj Printer Eval Util Terms Problems Rules Plans Bt Heap Layout.
 Require Extraction. Require Import ExtrOcamlBasic.
 Extraction Language OCaml.
-Extraction "model.ml" tokenize tok_code parse parse_tokens show_top eval can_apply apply find_nodes find_node inorder_paths
+Extraction "model.ml" plan_result tokenize tok_code parse parse_tokens show_top eval can_apply apply find_nodes find_node inorder_paths
   gen_combine_terms_in_place gen_commute_haystack gen_move_around_blockers_one gen_move_around_blockers_two gen_binomial_times_binomial gen_binomial_times_monomial gen_simplify_multiple_terms get_rand_vars split_in_two_random rand_number render r_num letter get_sub_terms is_simple_term is_preferred_term_form get_term get_terms has_like_terms terms_are_like get_term_ex factor factor_add_terms_ex make_term pstep init clone clone_from_root hrotate
   visit_pre visit_in visit_post logger pre ino post to_list find_id find_type rotate_tree bpaths label shapes_upto layout measure_bounds
   Z.add Z.mul Z.opp Qred.
